@@ -39,3 +39,10 @@ Definition check_mt (c : cfg) (rp : reports) (impl : list binding) :=
 (* the multi-thread model under a given schedule (used to validate the coordinator model on schedules the
    check constructs: every firing immediately followed by a batch of one = the unperturbed order) *)
 Definition model_mt (c : cfg) (acts : list mact) := (memissions c acts, mknown_C11 c acts).
+
+(* configurations as the check states them: window names in declaration order, WINDOW blocks in textual order;
+   the variables s, p, o of the default plan carry the numbers 8, 7, 6 in the check's variable numbering *)
+Definition spo_default : list pat := [(V 8, V 7, V 6)].
+Definition mk_cfg (decls : list N) (named : list (N * list pat)) (sp : option (list pat)) (doc : list triple)
+                  (p : policy) (o : sop) : cfg :=
+  add_static doc (mkCfg (pair_blocks spo_default decls named) sp [] p o).
